@@ -249,7 +249,7 @@ func runC16(c *Ctx) {
 					if cl, isCL := y.(*ast.CompositeLit); isCL {
 						if tv, ok := info.Types[cl]; ok && eng.TypeName(tv.Type) == "dht/internal/config.Config" {
 							for _, el := range cl.Elts {
-								if kv, isKV := el.(*ast.KeyValueExpr); isKV && "dht/internal/config.Config."+kv.Key.(*ast.Ident).Name == fld && !isNil(info, kv.Value) {
+								if kv, isKV := el.(*ast.KeyValueExpr); isKV && "dht/internal/config.Config."+eng.NameOf(kv.Key.(*ast.Ident)) == fld && !isNil(info, kv.Value) {
 									inLit = true
 								}
 							}
@@ -688,7 +688,7 @@ func runC16(c *Ctx) {
 			fld := s.Field(i)
 			read := false
 			ctor.WalkDeep(func(n ast.Node) bool {
-				if sel, ok := n.(*ast.SelectorExpr); ok && eng.FieldName(info, sel) == "dht/fullrt.config."+fld.Name() {
+				if sel, ok := n.(*ast.SelectorExpr); ok && eng.FieldName(info, sel) == "dht/fullrt.config."+eng.VarName(fld) {
 					if as, isAs := p.Parent(sel).(*ast.AssignStmt); isAs {
 						for _, l := range as.Lhs {
 							if l == ast.Expr(sel) {
